@@ -5,7 +5,7 @@
    (recorded by the harness from python-snappy).  A query outside the table
    answers the marker "unanswered" so that a desynchronised model is visible.
      vi <n>                       encode_varint
-     vd <hex>                     decode_varint_raw:      value TAB resthex
+     vd <hex>                     decode_varint64:        value TAB resthex
      v32 <hex>                    decode_varint32
      wire <hex>                   ser_wire (parse_wire b)
      hdr <hex>                    wire_dec_header + wire_view: empty merge ident t:l:b,...
@@ -18,39 +18,13 @@
      ok <file> <utab>             chunk_ok of every frame: 1/0 list
      isiwa <0/1 fixed> <hex>      is_iwa_file *)
 From Coq Require Import NArith List Bool.
-From NP Require Import Model.PyBase Model.Varint Model.Wire Model.IWA.
+From NP Require Import Model.PyBase Model.Varint Model.Wire Model.IWA Model.IWAIO.
 Import ListNotations.
 Open Scope N_scope.
 
-Definition c_comma : chr := 44.
-Definition c_semi : chr := 59.
-Definition c_bar : chr := 124.
-Definition c_dash : chr := 45.
-
 Definition show_hex (r : result bytes) : str :=
-  match r with Ok b => hex_of_bytes b | Err e => show_err e end.
+  match r with Ok b => hex b | Err e => show_err e end.
 
-(* zlib.adler32 *)
-Definition adler32 (b : bytes) : N :=
-  let '(a, s) := fold_left (fun st x => let '(a, s) := st in
-                                        let a' := (a + x) mod 65521 in (a', (s + a') mod 65521)) b (1, 0) in
-  s * 65536 + a.
-Definition digest (b : bytes) : str := N_to_str (lenN b) ++ [c_colon] ++ N_to_str (adler32 b).
-
-(* ---------- tables ---------- *)
-Definition unanswered : bytes := [117;110;97;110;115;119;101;114;101;100].
-Definition parse_entry (s : str) : bytes * option bytes :=
-  match split_on c_colon s [] with
-  | [k; v] => (bytes_of_hex k, match v with [45] => None | _ => Some (bytes_of_hex v) end)
-  | _ => ([], None)
-  end.
-Definition parse_table (s : str) : list (bytes * option bytes) :=
-  match s with [] => [] | _ => map parse_entry (split_on c_comma s []) end.
-Fixpoint lookup (t : list (bytes * option bytes)) (k : bytes) : option (option bytes) :=
-  match t with
-  | [] => None
-  | (k', v) :: r => if str_eqb k' k then Some v else lookup r k
-  end.
 Definition tab_uncompress (t : list (bytes * option bytes)) (k : bytes) : option bytes :=
   match lookup t k with Some v => v | None => Some unanswered end.
 Definition tab_compress (t : list (bytes * option bytes)) (k : bytes) : bytes :=
@@ -59,7 +33,6 @@ Definition tab_compress (t : list (bytes * option bytes)) (k : bytes) : bytes :=
 (* ---------- printing ---------- *)
 Definition show_minfo (mi : minfo) : str :=
   N_to_str (mi_type mi) ++ [c_colon] ++ N_to_str (mi_length mi) ++ [c_colon] ++ N_to_str (mi_base mi).
-Definition show_bool (b : bool) : str := if b then [49] else [48].
 Definition show_view (v : hview) : str :=
   show_bool (hv_empty v) ++ [c_space] ++ show_bool (hv_merge v) ++ [c_space] ++ N_to_str (hv_ident v) ++ [c_space] ++
   join [c_comma] (map show_minfo (hv_infos v)).
@@ -78,12 +51,12 @@ Definition all_known (t : N) : bool := true.
 
 (* ---------- segment specifications for enc ---------- *)
 Definition parse_seg (s : str) : wmsg * list bytes :=
-  match split_on c_bar s [] with
-  | h :: ps => (match parse_wire (bytes_of_hex h) with Some m => m | None => [] end, map bytes_of_hex ps)
+  match split_fast c_bar s with
+  | h :: ps => (match parse_wire (unhex h) with Some m => m | None => [] end, map unhex ps)
   | [] => ([], [])
   end.
 Definition parse_segs (s : str) : list (wmsg * list bytes) :=
-  match s with [] => [] | _ => map parse_seg (split_on c_semi s []) end.
+  match s with [] => [] | _ => map parse_seg (split_fast c_semi s) end.
 
 (* pieces cut at absolute offsets (ascending) *)
 Fixpoint cut_at (d : bytes) (pos : N) (cuts : list N) : list bytes :=
@@ -91,62 +64,57 @@ Fixpoint cut_at (d : bytes) (pos : N) (cuts : list N) : list bytes :=
   | [] => [d]
   | c :: r => takeN (c - pos) d :: cut_at (dropN (c - pos) d) c r
   end.
-Definition parse_nums (s : str) : list N :=
-  match s with [] => [] | _ => map digits_to_N (split_on c_comma s []) end.
-
 Definition rechunk (compress : bytes -> bytes) (pieces : list bytes) (modes : str) : result bytes :=
   frames (map (fun pm => if snd pm =? 99 then compress (fst pm) else fst pm) (combine pieces modes)).
 
-Definition flag_of (s : str) : bool := match s with [49] => true | _ => false end.
-
 Definition handle (line : list N) : list N :=
-  match fields line with
-  | [[118;105]; n] => hex_of_bytes (encode_varint (digits_to_N n))
+  match fields_fast line with
+  | [[118;105]; n] => hex (encode_varint (digits_to_N n))
   | [[118;100]; h] =>
-    match decode_varint_raw (bytes_of_hex h) with
-    | Ok (v, r) => N_to_str v ++ [c_tab] ++ hex_of_bytes r
+    match decode_varint64 (unhex h) with
+    | Ok (v, r) => N_to_str v ++ [c_tab] ++ hex r
     | Err e => show_err e
     end
   | [[118;51;50]; h] =>
-    match decode_varint32 (bytes_of_hex h) with
-    | Ok (v, r) => N_to_str v ++ [c_tab] ++ hex_of_bytes r
+    match decode_varint32 (unhex h) with
+    | Ok (v, r) => N_to_str v ++ [c_tab] ++ hex r
     | Err e => show_err e
     end
   | [[119;105;114;101]; h] =>
-    match parse_wire (bytes_of_hex h) with
-    | Some m => show_bool (wf_msgb m) ++ [c_space] ++ hex_of_bytes (ser_wire m)
+    match parse_wire (unhex h) with
+    | Some m => show_bool (wf_msgb m) ++ [c_space] ++ hex (ser_wire m)
     | None => [33]
     end
   | [[104;100;114]; h] =>
-    match wire_dec_header (bytes_of_hex h) with
+    match wire_dec_header (unhex h) with
     | Ok m => show_view (wire_view m)
     | Err e => show_err e
     end
   | [[100;101;99]; f; t] =>
     let tb := parse_table t in
-    match decompress_all (tab_uncompress tb) (bytes_of_hex f) with
+    match decompress_all (tab_uncompress tb) (unhex f) with
     | Ok raw => digest raw
     | Err e => show_err e
     end
-  | [[115;101;103;115]; raw] => show_segs (c05_segments all_known (bytes_of_hex raw))
+  | [[115;101;103;115]; raw] => show_segs (c05_segments all_known (unhex raw))
   | [[115;101;103;115]] => show_segs (c05_segments all_known [])
   | [[102;105;108;101]; f; t] =>
     let tb := parse_table t in
-    show_file (c05_file_from_buffer (tab_uncompress tb) all_known (bytes_of_hex f) false)
-  | [[101;110;99]; s] => hex_of_bytes (concat (map segment_to_buffer (parse_segs s)))
+    show_file (c05_file_from_buffer (tab_uncompress tb) all_known (unhex f) false)
+  | [[101;110;99]; s] => hex (concat (map segment_to_buffer (parse_segs s)))
   | [[99;104;117;110;107;115]; raw; t] =>
-    let tb := parse_table t in show_hex (to_chunks (tab_compress tb) (bytes_of_hex raw))
+    let tb := parse_table t in show_hex (to_chunks (tab_compress tb) (unhex raw))
   | [[114;101;99;104;117;110;107]; raw; cuts; modes; t] =>
     let tb := parse_table t in
-    show_hex (rechunk (tab_compress tb) (cut_at (bytes_of_hex raw) 0 (parse_nums cuts)) modes)
+    show_hex (rechunk (tab_compress tb) (cut_at (unhex raw) 0 (parse_nums cuts)) modes)
   | [[111;107]; f; t] =>
     let tb := parse_table t in
-    match split_frames (bytes_of_hex f) with
+    match split_frames (unhex f) with
     | Some l => map (fun fr => if chunk_ok (tab_uncompress tb) fr then 49 else 48) l
     | None => [33]
     end
   | [[105;115;105;119;97]; fx; h] =>
-    match is_iwa_file (flag_of fx) (bytes_of_hex h) with
+    match is_iwa_file (flag_of fx) (unhex h) with
     | Ok true => [84] | Ok false => [70] | Err e => show_err e
     end
   | _ => [63]
